@@ -114,15 +114,26 @@ func (ts *Timers) Add(ctx context.Context, id string, message interface{}, in ti
 
 			// Not exactly what we want ...
 		case <-timer.C:
+			// Remove our own entry before emitting: the id is free
+			// for reuse from the moment the timer fires (also from
+			// inside the emitter), and a Rem that got there first
+			// has really cancelled this timer.
+			//
+			// See https://github.com/Comcast/sheens/issues/19
+			ts.Lock()
+			mine := ts.timers[id] == te
+			if mine {
+				delete(ts.timers, id)
+			}
+			ts.Unlock()
+			if !mine {
+				return
+			}
+
 			Logf("Timers firing %s", JS(ts))
 			if err := ts.emit(ctx, te.Message); err != nil {
 				ts.err(fmt.Errorf("Timers emit error %v id=%s", err, id))
 			}
-
-			// See https://github.com/Comcast/sheens/issues/19
-			ts.Lock()
-			delete(ts.timers, id)
-			ts.Unlock()
 		}
 	}()
 
